@@ -2,7 +2,7 @@
 //! reader and a small marshaller.  Nothing in here calls zbus or zvariant, so it can judge them.
 use std::fmt;
 
-#[derive(Clone, Debug, PartialEq)]
+#[derive(Clone, Debug, PartialEq, serde::Serialize, serde::Deserialize)]
 pub enum Val {
     Byte(u8),
     Bool(bool),
